@@ -1150,12 +1150,15 @@ func (c *cctx) closeFacts(base int, k *Term, rng *Term) {
 			c.st.add(f)
 			continue
 		}
-		g := Implies(rng, f)
+		// a canonical bound variable (per nesting depth) makes the same fact
+		// found in several evaluations the same term, so it is stated once
+		kc := Var(fmt.Sprintf("tf!k%d", len(c.bound)), k.S)
+		g := subst(Implies(rng, f), map[string]*Term{k.Name: kc})
 		var pats [][]*Term
 		if !c.x.ar.BV {
-			pats = autoPatterns(g, k)
+			pats = autoPatterns(g, kc)
 		}
-		c.st.add(Forall([]*Term{k}, g, pats...))
+		c.st.add(Forall([]*Term{kc}, g, pats...))
 	}
 }
 
